@@ -342,6 +342,15 @@ def build_catalogue():
         f.base = 2
         f.eradix = 10
         cat.append(f)
+    # mantissa radix below the exponent radix with separators in every component (a byte can be an exponent
+    # digit without being a mantissa digit: the look-around of integer / fraction separators must use the mantissa radix)
+    for (rad, base, erad, tag) in [(8, 2, 10, "R8B2E10"), (10, 10, 16, "R10E16")]:
+        for (mask, c) in [(1, False), (2, False), (4, False), (3, True)]:
+            fl = [x for comp in comps for x in mode_flags(comp, mask, c)]
+            f = sepfmt(f"SEP_{tag}_ALL_{mode_tag(mask, c)}", fl, radix=rad, floats=("f64",), ints=("u32", "i64"))
+            f.base = base
+            f.eradix = erad
+            cat.append(f)
     # base prefix / suffix with restricted separator modes
     for (mask, c) in [(1, False), (2, False), (4, False), (3, False), (5, True), (6, False)]:
         fl = [x for comp in comps for x in mode_flags(comp, mask, c)]
